@@ -113,6 +113,12 @@ for m, mod in loaded.items():
         elif isinstance(obj, types.FunctionType) and obj.__module__ == mod.__name__:
             out["functions"][f"{m}.{name}"] = fn_info(obj)
 
+# module-level constant collections of strings (tables the code consults: builtin module names, unsafe-module lists ...), as imported
+out["module_str_sets"] = {}
+for m, mod in loaded.items():
+    for name, obj in vars(mod).items():
+        if isinstance(obj, (frozenset, set, tuple, list)) and 0 < len(obj) <= 4000 and all(isinstance(x, str) for x in obj) and not name.startswith("__"):
+            out["module_str_sets"].setdefault(m, {})[name] = {"type": type(obj).__name__, "items": sorted(obj) if isinstance(obj, (set, frozenset)) else list(obj)}
 if "fickle" in loaded:
     fk = loaded["fickle"]
     out["OPCODES_BY_NAME"] = {n: "fickle." + c.__qualname__ for n, c in fk.OPCODES_BY_NAME.items()}
